@@ -543,7 +543,10 @@ def check_log_retention(rep, fx, W, V=None):
             if how.startswith('call:grow'):
                 continue
             key = 'C02.R3:reverse_log:%s:%s' % (fn, how)
-            if how.startswith('call:shrink:pop') and fn in pops:
+            if how.startswith('call:shrink:pop') and fn.split('::{closure')[0] == 'state::State::rnext':
+                # with private helpers looked through, the pop of a `pop_reverse_step` method shows up in rnext itself
+                rep.add('C02.R3', key, True, 'the pop that feeds rnext', fn, w['at'], nontrivial=False)
+            elif how.startswith('call:shrink:pop') and fn in pops:
                 callers = {c.split('::{closure')[0] for c in fx.callers().get(fn, ())} | {fn.split('::{closure')[0]}
                 ok = callers <= {'state::State::rnext', fn}
                 rep.add('C02.R3', key, ok, 'the pop that feeds rnext' if ok else
